@@ -11,6 +11,9 @@ struct TrackedStats {
     long ctor = 0, dtor = 0, copies = 0, assigns = 0, compares = 0;
     int next_serial = 1;
     bool windows = true;             // scheduling point inside each access window
+    // family hooks: called on every read / write of any Tracked (after the HB check)
+    void (*hook_read)(const struct Tracked*, uint64_t) = nullptr;
+    void (*hook_set)(const struct Tracked*, uint64_t) = nullptr;
     void reset() { *this = TrackedStats(); }
 };
 inline TrackedStats& tstats() { static TrackedStats s; return s; }
@@ -77,11 +80,13 @@ struct Tracked {
         if (canary != ALIVE) fail("use-after-destroy", "payload destroyed during a read");
         uint64_t b = w2;
         if (a != b) fail("torn", "payload read saw a half-written value");
+        if (tstats().hook_read) tstats().hook_read(this, a);
         return a;
     }
     void set(uint64_t v) {
         alive("payload write");
         hb_write(sh, "payload");
+        if (tstats().hook_set) tstats().hook_set(this, v);
         w1 = v;
         if (tstats().windows) step();
         if (canary != ALIVE) fail("use-after-destroy", "payload destroyed during a write");
@@ -92,6 +97,8 @@ struct Tracked {
         hb_write(sh, "payload");
         uint64_t a = w1, b = w2;
         if (a != b) fail("torn", "payload modify started from a half-written value");
+        if (tstats().hook_read) tstats().hook_read(this, a);
+        if (tstats().hook_set) tstats().hook_set(this, a | bits);
         w1 = a | bits;
         if (tstats().windows) step();
         if (canary != ALIVE) fail("use-after-destroy", "payload destroyed during a write");
@@ -118,6 +125,9 @@ struct QLedger {
     bool strict_lifecycle = false;     // C13: deallocate of a still-constructed object is a violation
     void (*on_dealloc)(void* p, const char* type) = nullptr;   // family hook (C05 direct rule)
     void reset() {
+#ifdef VRT_ASAN
+        for (Blk& b : blks) __asan_unpoison_memory_region(b.p, b.bytes);
+#endif
         for (Blk& b : blks) std::free(b.p);
         blks.clear(); by_addr.clear();
         null_destroy = null_dealloc = dealloc_constructed = 0;
